@@ -5,6 +5,8 @@ CONSTANTS
  MaxOps = 1
  KeyMode = "resolve"
  LockRefTgt = FALSE
+ CtxKinds = {"bg", "cancelled"}
+ MarkCtx = FALSE
  Eager = TRUE
 SPECIFICATION Spec
 INVARIANTS TypeOK LocksNonNeg MarkIsReach
